@@ -1658,7 +1658,8 @@ static void vi(void)
 						free(ln);
 						ln = ln2;
 					}
-					if (ex_command(ln) == 0 && strcmp(ln, ":w") != 0)
+					/* a failed line may have changed text or scrolled */
+					if (ex_command(ln) != 0 || strcmp(ln, ":w") != 0)
 						mod = VC_ALL;
 					reg_put(':', ln, 1);
 				}
